@@ -44,7 +44,14 @@ CompJudge(d, c) ==
   LET V == [absent |-> c.absent, comps |-> [k \in 1..Len(c.comps) |-> MkV(c.comps[k])]]
       S == [cs |-> c.cs, excl |-> c.excl]
       B == CompBroken(d, V, S)
-  IN [clause |-> IF \E k \in 1..Len(c.comps) : ~TransportOK(c.comps[k]) THEN "transport" ELSE Clause(B, c),
+      (* the components are judged one by one: unless the composite itself is at fault (component 0), every component with a broken
+         constraint has one of its codes reported AT that component - an error of one component does not hide another's *)
+      own(ci) == {b \in B : b[3] = ci}
+      hidden == {ci \in 1..Len(d.kids) : own(ci) # {} /\ ~\E x \in 1..Len(c.cc) : c.cc[x][2] = ci /\ c.cc[x][1] \in {b[2] : b \in own(ci)}}
+      base == Clause(B, c)
+  IN [clause |-> IF \E k \in 1..Len(c.comps) : ~TransportOK(c.comps[k]) THEN "transport"
+                 ELSE IF base # "" THEN base
+                 ELSE IF own(0) = {} /\ c.res # "exc" /\ hidden # {} THEN "component_missed" ELSE "",
       names |-> {b[1] \o "@" \o ToString(b[3]) : b \in B}, nb |-> Cardinality(B), implied |-> Implied(B)]
 
 Judge(g, k) == IF g.kind = "composite" THEN CompJudge(g.d, g.cases[k]) ELSE ElemJudge(g.d, g.cases[k])
